@@ -352,14 +352,15 @@ pub fn instantiate(kind: OpKind, pfx: &str) -> OpInst {
         let tok = tok.clone();
         o.scan(move |(a, b): (Sym, Sym)| {
           let _t = &tok;
-          a.add(&b)
+          // not commutative (2a + b): the argument order is part of the definition
+          a.add(&a).add(&b)
         })
       }),
       Box::new(move |s: RStream| {
         let mut items: Vec<Sym> = vec![];
         for x in s.items.iter() {
           let v = match items.last() {
-            Some(l) => l.add(x),
+            Some(l) => l.add(l).add(x),
             None => x.clone(),
           };
           items.push(v);
@@ -377,7 +378,7 @@ pub fn instantiate(kind: OpKind, pfx: &str) -> OpInst {
             let tok = tok.clone();
             o.reduce(move |(a, b): (Sym, Sym)| {
               let _t = &tok;
-              a.add(&b)
+              a.add(&a).add(&b)
             })
           }
         }),
@@ -386,6 +387,7 @@ pub fn instantiate(kind: OpKind, pfx: &str) -> OpInst {
             let mut acc: Option<Sym> = None;
             for x in s.items.iter() {
               acc = Some(match acc {
+                Some(a) if !is_sum => a.add(&a).add(x),
                 Some(a) => a.add(x),
                 None => x.clone(),
               });
